@@ -248,8 +248,27 @@ pub fn install_panic_hook() {
         } else {
             "<non-string panic>".to_string()
         };
-        LAST_PANIC.with(|p| *p.borrow_mut() = Some(format!("{} @ {}", msg, loc.unwrap_or_default())));
+        let text = format!("{} @ {}", msg, loc.unwrap_or_default());
+        if let Ok(mut g) = LAST_PANIC_ANYWHERE.lock() {
+            *g = Some(text.clone());
+        }
+        LAST_PANIC.with(|p| *p.borrow_mut() = Some(text));
     }));
+}
+
+/// the most recent panic on any thread (for the top-level machinery report: a panic that escapes a check)
+pub static LAST_PANIC_ANYWHERE: std::sync::Mutex<Option<String>> = std::sync::Mutex::new(None);
+
+/// runs a whole check; a panic escaping it is a machinery failure (exit 2), never a verdict
+pub fn run_top(prop: &str, f: impl FnOnce() -> Run) -> i32 {
+    match std::panic::catch_unwind(std::panic::AssertUnwindSafe(f)) {
+        Ok(run) => run.finish(),
+        Err(_) => {
+            let msg = LAST_PANIC_ANYWHERE.lock().ok().and_then(|g| g.clone()).unwrap_or_default();
+            println!("MACHINERY-ERROR property={} the check itself panicked (not a verdict): {}", prop, msg);
+            2
+        }
+    }
 }
 
 /// Runs `f`, returning Err(description) if it panicked.
